@@ -41,7 +41,9 @@ func TestGocvBoundedDependencies(t *testing.T) {
 		action        func(list string) string
 	}
 	kinds := []kind{
-		{"add_contact_groups.groups", "group", groups, func(l string) string { return `{"uuid": "2d3e4f5a-6b7c-4d8e-9f9a-0b1c2d3e4f23", "type": "add_contact_groups", "groups": ` + l + `}` }},
+		{"add_contact_groups.groups", "group", groups, func(l string) string {
+			return `{"uuid": "2d3e4f5a-6b7c-4d8e-9f9a-0b1c2d3e4f23", "type": "add_contact_groups", "groups": ` + l + `}`
+		}},
 		{"remove_contact_groups.groups", "group", groups, func(l string) string {
 			return `{"uuid": "2d3e4f5a-6b7c-4d8e-9f9a-0b1c2d3e4f23", "type": "remove_contact_groups", "groups": ` + l + `, "all_groups": false}`
 		}},
@@ -51,7 +53,9 @@ func TestGocvBoundedDependencies(t *testing.T) {
 		{"start_session.groups", "group", groups, func(l string) string {
 			return `{"uuid": "2d3e4f5a-6b7c-4d8e-9f9a-0b1c2d3e4f23", "type": "start_session", "flow": {"uuid": "7c0d1e2f-3a4b-4c5d-8e6f-7a8b9c0d1e20", "name": "Deps"}, "groups": ` + l + `}`
 		}},
-		{"add_input_labels.labels", "label", labels, func(l string) string { return `{"uuid": "2d3e4f5a-6b7c-4d8e-9f9a-0b1c2d3e4f23", "type": "add_input_labels", "labels": ` + l + `}` }},
+		{"add_input_labels.labels", "label", labels, func(l string) string {
+			return `{"uuid": "2d3e4f5a-6b7c-4d8e-9f9a-0b1c2d3e4f23", "type": "add_input_labels", "labels": ` + l + `}`
+		}},
 	}
 	cases := 0
 	counts := map[string]int{}
@@ -117,8 +121,64 @@ func TestGocvBoundedDependencies(t *testing.T) {
 			}
 		}
 	}
+	// templates: an expression in a template position - base text or a translation, of a field that is set or left unset in
+	// the base language - references a field / global that must be listed
+	type tpos struct{ name, base, loc string }
+	for _, tp := range []tpos{
+		{"send_msg.text", `"text": "hi %s"`, `"text": ["hola %s"]`},
+		{"send_msg.quick_replies", `"text": "hi", "quick_replies": ["%s"]`, `"quick_replies": ["%s"]`},
+		{"send_msg.attachments", `"text": "hi", "attachments": ["image:%s"]`, `"attachments": ["image:%s"]`},
+	} {
+		for _, ref := range [][2]string{{"@globals.org_name", "global:org_name"}, {"@fields.team", "field:team"}} {
+			for _, where := range []string{"base", "translation_base_set", "translation_base_unset"} {
+				cases++
+				base, loc := fmt.Sprintf(tp.base, "x"), ""
+				switch where {
+				case "base":
+					base = fmt.Sprintf(tp.base, ref[0])
+				case "translation_base_set":
+					loc = fmt.Sprintf(tp.loc, ref[0])
+				case "translation_base_unset":
+					if tp.name == "send_msg.text" {
+						continue // the text of a message is required
+					}
+					base = `"text": "hi"`
+					loc = fmt.Sprintf(tp.loc, ref[0])
+				}
+				localization := "{}"
+				if loc != "" {
+					localization = `{"spa": {"2d3e4f5a-6b7c-4d8e-9f9a-0b1c2d3e4f23": {` + loc + `}}}`
+				}
+				input := fmt.Sprintf("%s: reference %s in the %s", tp.name, ref[0], where)
+				assetsJSON := `{"fields": [{"uuid": "d66a7823-eada-40e5-9a3a-57239d4690bf", "key": "team", "name": "Team", "type": "text"}],
+					"globals": [{"key": "org_name", "name": "Org Name", "value": "Nyaruka"}],
+					"flows": [{"uuid": "7c0d1e2f-3a4b-4c5d-8e6f-7a8b9c0d1e20", "name": "Deps", "spec_version": "13.6.0", "language": "eng", "type": "messaging", "localization": ` + localization + `,
+						"nodes": [{"uuid": "0b1c2d3e-4f5a-4b6c-9d7e-8f9a0b1c2d21", "actions": [{"uuid": "2d3e4f5a-6b7c-4d8e-9f9a-0b1c2d3e4f23", "type": "send_msg", ` + base + `}], "exits": [{"uuid": "3e4f5a6b-7c8d-4e9f-8a0b-1c2d3e4f5a24"}]}]}]}`
+				if !json.Valid([]byte(assetsJSON)) {
+					t.Fatalf("driver built invalid JSON for %s", input)
+				}
+				sa, err := test.CreateSessionAssets([]byte(assetsJSON), "")
+				if err != nil {
+					fail("scenario_does_not_load", input, err.Error())
+					continue
+				}
+				flow, err := sa.Flows().Get("7c0d1e2f-3a4b-4c5d-8e6f-7a8b9c0d1e20")
+				if err != nil {
+					fail("scenario_does_not_load", input, err.Error())
+					continue
+				}
+				deps := map[string]bool{}
+				for _, d := range flow.Inspect(sa).Dependencies {
+					deps[d.Type()+":"+d.Reference().Identity()] = true
+				}
+				if !deps[ref[1]] {
+					fail("template_reference_not_listed", input, fmt.Sprintf("%s is referenced by a template but is not among the dependencies %v", ref[1], deps))
+				}
+			}
+		}
+	}
 	for class, n := range counts {
 		fmt.Printf("BOUNDED-COUNT class=%s n=%d\n", class, n)
 	}
-	fmt.Printf("BOUNDED: cases=%d bound=5 reference-list positions x every list of 1..3 references over 2 fixed + 1 expression-based\n", cases)
+	fmt.Printf("BOUNDED: cases=%d bound=5 reference-list positions x every list of 1..3 references over 2 fixed + 1 expression-based; field / global references in 3 template positions, in the base text or a translation of a set or unset field\n", cases)
 }
